@@ -3,6 +3,7 @@ import props_array
 import props_resource
 import props_subject
 import props_observable
+import props_router
 SPECS = {
     "C01": props_resource.C01,
     "C02": props_resource.C02,
@@ -14,7 +15,9 @@ SPECS = {
     "C05": props_subject.C05,
     "C10": props_subject.C10,
     "C16": props_observable.C16,
+    "C06": props_router.C06,
+    "C13": props_router.C13,
 }
 # specs that can be run (./check) but are not claimed in MANIFEST.json yet
-IN_PROGRESS = set()
+IN_PROGRESS = {"C06", "C13"}
 NOT_CLAIMED = {}
